@@ -226,6 +226,8 @@ class FloorTracer:
             kind = KIND_BY_ACTION.get(name, name)
         asset = self.m.by_asset.get(e.asset_id, e.asset_id if e.asset_id < 0 else 0)
         arg = (a.idx + 1) if isinstance(a, ScriptAct) else 0
+        if kind == 'sched':
+            arg = -2000 - asset
         if kind in ('mstart', 'mfinish'):
             req = getattr(a, 'keywords', {}).get('request')
             arg = getattr(getattr(req, 'target', None), '_vid', 0) * 10 + (1 if getattr(req, 'tag', '') == 'y' else 0)
@@ -273,6 +275,11 @@ class FloorTracer:
                         'finish': len(sdm.get('finish_work_order', {}).get(mt.name, []))}
         else:
             st['mt'] = {'queue': [], 'active': [], 'util': 0, 'value': 0, 'nvh': 0, 'enter': 0, 'start': 0, 'finish': 0}
+        st['sch'] = []
+        for a in self.m.scheds:
+            recs = sd.get('schedule_update', {}).get(a.name, [])
+            st['sch'].append({'idx': (a._schedule_index + 1) if a.env is not None else 0,
+                              'state': '-' if a.current_state is None else str(a.current_state), 'nrec': len(recs)})
         st['net'] = num(self.m.system.get_net_value_of_assets())
         st['mtvalue'] = num(self.m.maint.value) if self.m.maint is not None else 0
         return st
